@@ -263,7 +263,9 @@ class Replayer:
                 s_ = stmap.get(n)
                 if w is None or s_ is None:
                     continue
-                if s_ != w and not (s_ == "null"):
+                # a table collected from a SQL back end is typed by its exported frame: "up to the numeric family"
+                collected_from_sql = bk != "polars" and tbl._cache.backend.backend_name == "polars"
+                if s_ != w and not (s_ == "null") and not (collected_from_sql and {s_, w} <= {"int", "float"}):
                     self.fail(node, beh, k, bk, "dtype-static", f"column {n}: static type family {s_}, specification {w}")
                 okfam = (e_ == w) or (e_ == "null" and all(v is None for v in df[n].to_list())) or (
                     bk != "polars" and {e_, w} <= {"int", "float"})     # "up to the numeric family" on SQL
